@@ -1722,7 +1722,11 @@ class _FormatInferInstance(Visitor):
         scope = self.ctx_use.find_scope_from_use(e)
         if isinstance(scope.ctx, Context):
             return scope.ctx
-        return self._outer_ctx
+        # only the function's own scope is the caller's context; a `with`
+        # block whose context is computed at run time is not
+        if isinstance(scope.site, FuncDef):
+            return self._outer_ctx
+        return None
 
     def _scope_format(self, e: ContextUseSite) -> Format:
         """Returns the format of the rounding context scope for *e*.
